@@ -23,12 +23,17 @@ import (
 	"github.com/itchyny/gojq"
 )
 
-func main() { Register("c03", runC03); Register("sync", runSync); Register("replay", runReplay); Main() }
+func main() {
+	Register("c03", runC03)
+	Register("sync", runSync)
+	Register("replay", runReplay)
+	Main()
+}
 
 // ---------------------------------------------------------------------------------------------
 // universe
 
-func bigs(s string) *big.Int { x, _ := new(big.Int).SetString(s, 10); return x }
+func bigs(s string) *big.Int   { x, _ := new(big.Int).SetString(s, 10); return x }
 func lit(s string) json.Number { return json.Number(s) }
 func arr(xs ...any) []any {
 	if xs == nil {
